@@ -9,60 +9,64 @@ import (
 
 func init() {
 	verifRegister("VerifC18_ELoc", VerifC18_ELoc)
+	verifRegister("VerifC18_ELocSealed", VerifC18_ELocSealed)
 	verifRegister("VerifC18_ETrace", VerifC18_ETrace)
 }
 
 type c18Tmpl struct {
-	src  string
-	want string // "sym:NAME" the symbol node, "call:HEAD" the first call expression with that head
+	src   string
+	want  string // "sym:NAME" the symbol node, "call:HEAD" the first call expression with that head
+	known string // id of a known finding this template exhibits (only a wrong position is waived)
 }
 
 var c18Tmpls = []c18Tmpl{
-	{"(+ 1 BAD)", "sym:BAD"},
-	{"(defun f (x) (+ x BAD)) (f 1)", "sym:BAD"},
-	{"(let ((a 1)) (set! a 2) BAD)", "sym:BAD"},
-	{"(error 'boom 1)", "call:error"},
-	{"(defun f () (error 'boom 1)) (+ 1 (f))", "call:error"},
-	{"(car 5)", "call:car"},
-	{"(let ((a (car 5))) a)", "call:car"},
-	{"(handler-bind ((condition (lambda (c &rest a) BAD))) (error 'x 1))", "sym:BAD"},
-	{"(defmacro m (x) (quasiquote (+ (unquote x) BAD))) (m 1)", "sym:BAD"},
-	{"(list 1 2 (if true BAD 3))", "sym:BAD"},
-	{"((lambda (x) (car x)) 5)", "call:car"},
-	{"(set 'q (list 1 (car 5)))", "call:car"},
-	{"(progn (list (+ 1 2) (+ 3 4)) BAD)", "sym:BAD"},
-	{"(let* ((a (+ 1 2)) (b BAD)) b)", "sym:BAD"},
-	{"(flet ((g (y) (car y))) (g 5))", "call:car"},
-	{"(labels ((g (y) (error 'lab y))) (list (g 5)))", "call:error"},
-	{"(cond ((= 1 2) 1) (:else BAD))", "sym:BAD"},
-	{"(defun f (x) x) (f (f (nth 5 'x)))", "call:nth"},
-	{"(handler-bind ((c1 (lambda (c &rest a) (rethrow)))) (error 'c1 1))", "call:error"},
-	{"(ignore-errors (car 5)) (car 6)", "call2:car"},
-	{"(dotimes (i 2) (if (= i 1) BAD i))", "sym:BAD"},
-	{"(funcall (lambda () BAD))", "sym:BAD"},
-	{"(apply car (list 5))", "call:apply"},
-	{"(map 'list (lambda (x) (car x)) (list 5))", "call:car"},
-	{"(handler-bind ((a-err (lambda (c &rest x) (ignore-errors (handler-bind ((b-err (lambda (c &rest y) (error 'c-err 1)))) (error 'b-err 2))) (rethrow)))) (error 'a-err 3))", "call3:error"},
-	{"(handler-bind ((a-err (lambda (c &rest x) (ignore-errors (handler-bind ((b-err 42)) (error 'b-err 2))) (rethrow)))) (error 'a-err 3))", "call2:error"},
-	{"(handler-bind ((a-err (lambda (c &rest x) (handler-bind ((b-err (lambda (c &rest y) 'ok))) (error 'b-err 2)) (rethrow)))) (error 'a-err 3))", "call2:error"},
-	{"(defmacro mk (f) (list f 5)) (list 1 (mk car))", "call:mk"},
-	{"(defmacro mk2 (f x) (list f ''built x)) (progn (mk2 error 7))", "call:mk2"},
-	{"(defmacro tw (x) (quasiquote (progn (unquote x) (unquote x)))) (tw (car 5))", "call:car"},
+	{"(+ 1 BAD)", "sym:BAD", ""},
+	{"(defun f (x) (+ x BAD)) (f 1)", "sym:BAD", ""},
+	{"(let ((a 1)) (set! a 2) BAD)", "sym:BAD", ""},
+	{"(error 'boom 1)", "call:error", ""},
+	{"(defun f () (error 'boom 1)) (+ 1 (f))", "call:error", ""},
+	{"(car 5)", "call:car", ""},
+	{"(let ((a (car 5))) a)", "call:car", ""},
+	{"(handler-bind ((condition (lambda (c &rest a) BAD))) (error 'x 1))", "sym:BAD", ""},
+	{"(defmacro m (x) (quasiquote (+ (unquote x) BAD))) (m 1)", "sym:BAD", ""},
+	{"(list 1 2 (if true BAD 3))", "sym:BAD", ""},
+	{"((lambda (x) (car x)) 5)", "call:car", ""},
+	{"(set 'q (list 1 (car 5)))", "call:car", ""},
+	{"(progn (list (+ 1 2) (+ 3 4)) BAD)", "sym:BAD", ""},
+	{"(let* ((a (+ 1 2)) (b BAD)) b)", "sym:BAD", ""},
+	{"(flet ((g (y) (car y))) (g 5))", "call:car", ""},
+	{"(labels ((g (y) (error 'lab y))) (list (g 5)))", "call:error", ""},
+	{"(cond ((= 1 2) 1) (:else BAD))", "sym:BAD", ""},
+	{"(defun f (x) x) (f (f (nth 5 'x)))", "call:nth", ""},
+	{"(handler-bind ((c1 (lambda (c &rest a) (rethrow)))) (error 'c1 1))", "call:error", ""},
+	{"(ignore-errors (car 5)) (car 6)", "call2:car", ""},
+	{"(dotimes (i 2) (if (= i 1) BAD i))", "sym:BAD", ""},
+	{"(funcall (lambda () BAD))", "sym:BAD", ""},
+	{"(apply car (list 5))", "call:apply", ""},
+	{"(map 'list (lambda (x) (car x)) (list 5))", "call:car", ""},
+	{"(handler-bind ((a-err (lambda (c &rest x) (ignore-errors (handler-bind ((b-err (lambda (c &rest y) (error 'c-err 1)))) (error 'b-err 2))) (rethrow)))) (error 'a-err 3))", "call3:error", ""},
+	{"(handler-bind ((a-err (lambda (c &rest x) (ignore-errors (handler-bind ((b-err 42)) (error 'b-err 2))) (rethrow)))) (error 'a-err 3))", "call2:error", ""},
+	{"(handler-bind ((a-err (lambda (c &rest x) (handler-bind ((b-err (lambda (c &rest y) 'ok))) (error 'b-err 2)) (rethrow)))) (error 'a-err 3))", "call2:error", ""},
+	{"(defmacro mk (f) (list f 5)) (list 1 (mk car))", "call:mk", ""},
+	{"(defmacro mk2 (f x) (list f ''built x)) (progn (mk2 error 7))", "call:mk2", ""},
+	{"(defmacro tw (x) (quasiquote (progn (unquote x) (unquote x)))) (tw (car 5))", "call:car", ""},
 	// template lists with a DIRECT unquote-splicing child keep the position they were written at
-	{"(defmacro raise-with (&rest args) (quasiquote (error 'boom (unquote-splicing args)))) (progn (raise-with 1 2))", "call:error"},
-	{"(defmacro car-of (&rest xs) (quasiquote (car (unquote-splicing xs)))) (list (car-of 5))", "call:car"},
-	{"(defmacro m (&rest xs) (quasiquote (list (unquote-splicing xs) BAD (unquote-splicing xs)))) (m 1 2)", "sym:BAD"},
-	{"(defmacro m (&rest xs) (quasiquote (progn (unquote-splicing xs) (nth 5 'x)))) (m 1 2)", "call:nth"},
+	{"(defmacro raise-with (&rest args) (quasiquote (error 'boom (unquote-splicing args)))) (progn (raise-with 1 2))", "call:error", ""},
+	{"(defmacro car-of (&rest xs) (quasiquote (car (unquote-splicing xs)))) (list (car-of 5))", "call:car", ""},
+	{"(defmacro m (&rest xs) (quasiquote (list (unquote-splicing xs) BAD (unquote-splicing xs)))) (m 1 2)", "sym:BAD", ""},
+	{"(defmacro m (&rest xs) (quasiquote (progn (unquote-splicing xs) (nth 5 'x)))) (m 1 2)", "call:nth", ""},
 	// a position-less form the macro BUILT, placed with unquote inside a positioned template: it still
 	// takes the macro call site (the template around it keeps its own position)
-	{"(defmacro mg () (let ((g (gensym))) (quasiquote (list (unquote g) 1)))) (progn (mg))", "call:mg"},
-	{"(defmacro mg2 () (let ((g (gensym))) (quasiquote (let ((a 1)) (list a (list (unquote g))))))) (list 1 (mg2))", "call:mg2"},
+	{"(defmacro mg () (let ((g (gensym))) (quasiquote (list (unquote g) 1)))) (progn (mg))", "call:mg", ""},
+	{"(defmacro mg2 () (let ((g (gensym))) (quasiquote (let ((a 1)) (list a (list (unquote g))))))) (list 1 (mg2))", "call:mg2", ""},
 	// a call that is refused on a later turn of an eliminated tail loop is located at ITS OWN expression
-	{"(defun f (n &optional acc) (if (= n 0) (f) (f (- n 1) 1))) (defun g (x) (+ 1 (f x))) (g 2)", "call:f"},
+	{"(defun f (n &optional acc) (if (= n 0) (f) (f (- n 1) 1))) (defun g (x) (+ 1 (f x))) (g 2)", "call:f", ""},
 	// calls built by the threading operators stand where the threaded form was written
-	{"(defun g (x) (thread-first x (+ 1) (car) (+ 3))) (g 2)", "call:car"},
-	{"(defun g (x) (thread-last x (+ 1) (nth 'y) (+ 3))) (list (g 2))", "call:nth"},
-	{"(defun thrower () (error 'a-err 3)) (handler-bind ((a-err (lambda (c &rest x) (ignore-errors (car 5)) (rethrow)))) (thrower))", "call:error"},
+	{"(defun g (x) (thread-first x (+ 1) (car) (+ 3))) (g 2)", "call:car", ""},
+	{"(defun g (x) (thread-last x (+ 1) (nth 'y) (+ 3))) (list (g 2))", "call:nth", ""},
+	// an expansion the macro took out of its argument with cdr: no position of its own, so the macro call site
+	{"(defmacro call-rest (form) (cdr form)) (list 1 (call-rest (ignored car 5)))", "call:call-rest", "C18-cdr-built-expansion-not-stamped"},
+	{"(defun thrower () (error 'a-err 3)) (handler-bind ((a-err (lambda (c &rest x) (ignore-errors (car 5)) (rethrow)))) (thrower))", "call:error", ""},
 }
 
 type c18Walk struct {
@@ -146,6 +150,48 @@ func c18Run(env *lisp.LEnv, exprs []*lisp.LVal) *lisp.LVal {
 	return res
 }
 
+// The same templates on the reader's own SEALED tree with the positions the reader assigned (ELoc
+// works on an unsealed copy so that it can make every position symbolic; code that treats sealed
+// nodes differently — the call-site stamping of macro expansions skips them — is only reached
+// here).  Thin solver role (template and twin selection), stated.
+func VerifC18_ELocSealed() {
+	ti := vConcInt(vndChoice("tmpl", len(c18Tmpls)))
+	t := c18Tmpls[ti]
+	twin := vndChoice("twin", 2)
+	var env *lisp.LEnv
+	if twin == 1 {
+		env = newEnv(nil, lisp.WithDebugger(dormantDebugger{}))
+	} else {
+		env = newEnv(nil)
+	}
+	// one top-level form per line, so that distinct forms have distinct lines
+	src := strings.Replace(t.src, ") (", ")\n(", -1)
+	exprs, err := env.Runtime.Reader.Read("prog.lisp", strings.NewReader(src))
+	vAssert(err == nil, "template parses")
+	w := &c18Walk{}
+	for _, e := range exprs {
+		w.visit(e)
+	}
+	target := c18Find(w.nodes, t.want)
+	vAssert(target != nil, "designated node present")
+	wantLoc, hasWant := target.Source()
+	vAssert(hasWant, "designated node has a position")
+	res := c18Run(env, exprs)
+	vObserve("tmpl", src)
+	vAssert(res.Type == lisp.LError, "the template fails: "+outcome(res))
+	got, has := res.Source()
+	if t.known != "" && (!has || got.Pos != wantLoc.Pos) {
+		if vKnown(t.known, true) {
+			return
+		}
+	}
+	vAssert(has, "the error carries a location")
+	vAssert(got.File == "prog.lisp", "the location lies within the source that was loaded")
+	vAssert(got.Pos == wantLoc.Pos && got.Line == wantLoc.Line && got.Col == wantLoc.Col, "the error's position is the position of the form whose evaluation raised it: got "+itoa(got.Line)+":"+itoa(got.Col)+" want "+itoa(wantLoc.Line)+":"+itoa(wantLoc.Col))
+	cleanRuntime(env, "user")
+	vCover("end")
+}
+
 func VerifC18_ELoc() {
 	ti := vndChoice("tmpl", vParam("ntmpl", len(c18Tmpls)))
 	t := c18Tmpls[ti]
@@ -169,6 +215,11 @@ func VerifC18_ELoc() {
 	vObserve("got.pos", got.Pos)
 	vObserve("want.pos", wantLoc.Pos)
 	vAssert(got.File == "prog.lisp", "the location lies within the source that was loaded")
+	if t.known != "" && (got.Pos != wantLoc.Pos || got.Line != wantLoc.Line || got.Col != wantLoc.Col) {
+		if vKnown(t.known, true) {
+			return
+		}
+	}
 	vAssert(got.Pos == wantLoc.Pos, "the error's position is the position of the form whose evaluation raised it")
 	vAssert(got.Line == wantLoc.Line && got.Col == wantLoc.Col, "line and column too")
 	cleanRuntime(env, "user")
